@@ -716,6 +716,11 @@ def frame_exhaustive(ctx):
 
 
 CORPUS_FRAME = [
+    # FrameGO(auto columns).extend(Frame(columns=[5.0, 1.0])): KeyError, but columns [0., 1., 5.] with 2 data columns
+    ({'rows': ['x', 'y'], 'labels': None, 'cols': [(np.int64, [0, 2]), (np.int64, [1, 3])], 'layout': [(2, True)]},
+     [{'op': 'ext_frame', 'fidx': ['x', 'y'], 'fcols': [5.0, 1.0], 'cols': [(np.int64, [0, 2]), (np.int64, [1, 3])],
+       'layout': [(2, True)]},
+      {'op': 'read'}]),
     ({'rows': ['x', 'y'], 'labels': ['a', 'b'], 'cols': [(np.int64, [1, 2]), (np.int64, [3, 4])], 'layout': [(2, True)]},
      [{'op': 'ext_frame', 'fidx': ['x', 'y'], 'fcols': ['c', 'b'], 'cols': [(np.int64, [5, 6]), (np.int64, [7, 8])],
        'layout': [(1, False), (1, False)]},
@@ -1780,6 +1785,226 @@ def hier_cases(ctx):
         yield emit('api:IndexHierarchyGO-exhaustive', labels, depth, ops, look)
     for labels, depth, ops, look in hier_random(ctx, ctx.n(150, 2000)):
         yield emit('api:IndexHierarchyGO-random', labels, depth, ops, look)
+    for labels, depth, ops, look in hier_deep(ctx):
+        yield emit('api:IndexHierarchyGO-deep', labels, depth, ops, look)
+
+
+# ----------------------------------------------------------------------------- deep hierarchies (depth 3 and 4)
+DEEP_CHOICES = [('a', 'b', 'c'), ('x', 'y', 'z'), ('p', 'q', 'r'), (1, 2, 3)]     # per depth: existing-not-last, existing-last, new
+
+
+def _deep_setup(depth):
+    """A full two-way tree of the given depth (labels in tree order; the last path takes the second label at every depth)
+    and every key that takes, per depth, the existing-not-last / existing-last / new label."""
+    levels = DEEP_CHOICES[:depth - 1] + [DEEP_CHOICES[3]]
+    labels = [tuple(c) for c in itertools.product(*[lv[:2] for lv in levels])]
+    keys = [tuple(c) for c in itertools.product(*levels)]
+    return labels, keys
+
+
+def hier_deep(ctx):
+    """Every combination of existing-last / existing-not-last / new per depth, alone and in pairs (depth 3: all pairs)."""
+    rng = ctx.rng
+    for depth in (3, 4):
+        labels, keys = _deep_setup(depth)
+        for k in keys:
+            yield labels, depth, [('append', k)], [True]
+        if depth == 3:
+            pairs = list(itertools.product(keys, keys))
+        else:
+            pairs = [(rng.choice(keys), rng.choice(keys)) for _ in range(ctx.n(150, 2500))]
+        for k1, k2 in pairs:
+            yield labels, depth, [('append', k1), ('append', k2)], [False, True]
+        # ragged trees: the same keys against a hierarchy whose last outer label has a single inner label
+        ragged = [l for l in labels if not (l[0] == 'b' and l[1] == 'x')]
+        for k in keys:
+            yield ragged, depth, [('append', k), ('read',)], [True, True]
+
+
+def hier_frame_history(depth, labels, ops):
+    """FrameGO with hierarchical (IndexHierarchyGO) columns: f[key] = values / f.extend(Frame with hierarchical
+    columns).  Decided on the Python side after every call: refused with the frame exactly as it was, or the
+    labels are the old labels followed by exactly the given ones and the data sits under the given keys."""
+    import static_frame as sf
+    n = len(labels)
+    f = sf.FrameGO(np.arange(2 * n).reshape(2, n), index=('r0', 'r1'), columns=sf.IndexHierarchyGO.from_labels(labels))
+
+    def view():
+        return ([tuple(_j(x) for x in l) for l in f.columns], tuple(f.shape), f.values.tolist(),
+                repr([tuple(r) for r in f.columns.values.tolist()]))
+    steps, problem = [], None
+    for k, op in enumerate(ops):
+        try:
+            before = view()
+        except Exception as e:  # noqa
+            problem = problem or f'before step {k + 1} the frame cannot be read: {type(e).__name__}'
+            break
+        if op[0] == 'set':
+            given = [tuple(op[1])]
+            data = np.array([[100 + k], [200 + k]])
+            exc = _call(lambda: f.__setitem__(tuple(op[1]), data[:, 0]))
+        else:
+            given = [tuple(x) for x in op[1]]
+            data = np.arange(2 * len(given)).reshape(2, len(given)) + 1000 * (k + 1)
+            other = sf.Frame(data, index=('r0', 'r1'), columns=sf.IndexHierarchy.from_labels(given))
+            exc = _call(lambda: f.extend(other))
+        step = {'op': [op[0], _j(op[1])], 'raised': None if exc is None else type(exc).__name__}
+        try:
+            after = view()
+            step['columns'] = _j(after[0])
+            step['shape'] = list(after[1])
+        except Exception as e:  # noqa
+            steps.append(step)
+            problem = problem or f'after step {k + 1} ({op[0]} {op[1]!r}) the frame cannot be read: {type(e).__name__}: {str(e)[:80]}'
+            break
+        steps.append(step)
+        if problem:
+            continue
+        old = before[0]
+        dup = any(g in old for g in given) or len(set(given)) != len(given) or any(len(g) != depth for g in given)
+        if exc is not None:
+            if after != before:
+                problem = f'step {k + 1}: {op[0]} {op[1]!r} raised {type(exc).__name__} but the frame changed: columns {before[0][-3:]} -> {after[0][-3:]}, shape {before[1]} -> {after[1]}'
+        else:
+            if dup:
+                problem = f'step {k + 1}: {op[0]} {op[1]!r} gives a label that is already there (or of the wrong depth) and was accepted'
+            elif after[0] != old + given:
+                problem = f'step {k + 1}: {op[0]} {op[1]!r} accepted, columns are {after[0][len(old) - 1:]} instead of {(old + given)[len(old) - 1:]}'
+            elif after[1] != (2, len(old) + len(given)) or after[3] != repr([tuple(l) for l in old + given]):
+                problem = f'step {k + 1}: labels and data out of step after {op[0]} {op[1]!r}: shape {after[1]}, columns.values {after[3][-80:]}'
+            else:
+                for j, g in enumerate(given):
+                    try:
+                        got = f[g].values.tolist()
+                    except Exception as e:  # noqa
+                        problem = f'step {k + 1}: after f[{g!r}] = ... reading f[{g!r}] raises {type(e).__name__}'
+                        break
+                    if got != data[:, j].tolist():
+                        problem = f'step {k + 1}: f[{g!r}] holds {got}, given {data[:, j].tolist()}'
+                        break
+                if not problem and repr(f.iloc[:, :len(old)].values.tolist()) != repr([r[:len(old)] for r in before[2]]):
+                    problem = f'step {k + 1}: the columns present before changed'
+    desc = {'container': 'FrameGO with IndexHierarchyGO columns', 'depth': depth, 'columns': _j(labels), 'steps': steps}
+    return desc, problem
+
+
+def hier_frame_cases(ctx):
+    rng = ctx.rng
+    for depth in (3, 4):
+        labels, keys = _deep_setup(depth)
+        hist = [[('set', k)] for k in keys]
+        hist += [[('set', rng.choice(keys)), ('set', rng.choice(keys))] for _ in range(ctx.n(60, 600))]
+        new_outer = [k for k in keys if k[0] == 'c']
+        old_outer = [k for k in keys if k[0] != 'c']
+        for _ in range(ctx.n(20, 200)):
+            a = sorted(rng.sample(new_outer, 2))
+            hist.append([('extend', a), ('set', rng.choice(keys))])
+            hist.append([('extend', [a[0], rng.choice(old_outer)]), ('set', rng.choice(keys))])
+        for ops in hist:
+            try:
+                desc, problem = hier_frame_history(depth, labels, ops)
+            except Exception as e:  # noqa
+                yield _escaped('api:FrameGO-hier-columns', {'depth': depth, 'ops': _j([list(o) for o in ops])}, e, {'container': 'FrameGO-hier-columns'})
+                continue
+            ctx.count(f'hierframe:depth{depth}', f'hierframe:len{len(ops)}')
+            for st in desc['steps']:
+                ctx.count('hierframe:' + ('raised:' + st['raised'] if st['raised'] else 'accepted'))
+            yield Case('api:FrameGO-hier-columns', desc, py_fail=problem, tags={'container': 'FrameGO-hier-columns'},
+                       nontrivial=any(st['raised'] is None for st in desc['steps']))
+
+
+# ----------------------------------------------------------------------------- typed grow-only indices (dates)
+F_TYPED_EXT = 'C09-typed-indexgo-extend-validates-uncoerced-values'
+TYPED = {'IndexYearGO': 'Y', 'IndexYearMonthGO': 'M', 'IndexDateGO': 'D'}
+
+
+def typed_history(cls_name, labels, ops):
+    """IndexYearGO / IndexYearMonthGO / IndexDateGO: labels are coerced to the index's unit on the way in; the
+    specification (append-only, duplicates rejected, all-or-nothing) is decided on the Python side with NumPy's own
+    coercion np.datetime64(value, unit)."""
+    import static_frame as sf
+    unit = TYPED[cls_name]
+    idx = getattr(sf, cls_name)(labels)
+    co = lambda v: str(np.datetime64(v, unit))
+    steps, problem = [], None
+    for k, op in enumerate(ops):
+        before = [str(x) for x in idx.values]
+        given = [op[1]] if op[0] == 'append' else list(op[1])
+        exc = _call(lambda: idx.append(op[1]) if op[0] == 'append' else idx.extend(op[1]))
+        try:
+            after = [str(x) for x in idx.values]
+            npos = len(idx.positions)
+        except Exception as e:  # noqa
+            after, npos = [_unreadable(e)], -1
+        steps.append({'op': [op[0], _j(op[1])], 'raised': None if exc is None else type(exc).__name__, 'values': after, 'positions': npos})
+        if problem:
+            continue
+        want = [co(v) for v in given]
+        dup = any(w in before for w in want) or len(set(want)) != len(want)
+        if exc is not None and after != before:
+            problem = f'step {k + 1}: {op[0]} {op[1]!r} raised {type(exc).__name__} but the index changed: {before} -> {after}'
+        elif exc is None and dup:
+            problem = f'step {k + 1}: {op[0]} {op[1]!r} holds a duplicate label and was accepted: {after}'
+        elif exc is None and (after != before + want or npos != len(after)):
+            problem = f'step {k + 1}: {op[0]} {op[1]!r} accepted: {after} (positions {npos}) instead of {before + want}'
+    return {'container': cls_name, 'labels': _j(labels), 'steps': steps}, problem
+
+
+def _typed_class(cls_name, labels, ops):
+    """Finding class by construction: an extend where a value after the first coerces to a label that is held or was
+    given before it in the same call, while validation (which compares the un-coerced value) cannot see that."""
+    unit = TYPED[cls_name]
+    co = lambda v: str(np.datetime64(v, unit))
+    cur = [co(v) for v in labels]
+    for op in ops:
+        given = [op[1]] if op[0] == 'append' else list(op[1])
+        added, rejected = [], False
+        for k, v in enumerate(given):
+            if co(v) in cur + added:
+                if k > 0 and op[0] == 'extend':
+                    return F_TYPED_EXT
+                rejected = True
+                break
+            added.append(co(v))
+        if not rejected:
+            cur += added
+    return None
+
+
+def typed_cases(ctx):
+    rng = ctx.rng
+    corpus = [('IndexYearMonthGO', ['2020-01', '2020-02'], [('extend', ['2020-03-01', '2020-03-15']), ('append', '2020-04')]),
+              ('IndexDateGO', ['2020-01-01'], [('extend', ['2020-03-01', np.datetime64('2020-03-01')])]),
+              ('IndexYearGO', ['2020'], [('extend', ['2021-05', '2021-07'])]),
+              ('IndexYearMonthGO', ['2020-01'], [('extend', ['2020-02', '2020-03']), ('append', '2020-02-11'), ('extend', ['2020-01-30', '2020-05'])])]
+    hist = list(corpus)
+    pool = {'IndexYearGO': ['2019', '2020-03', '2021-07-04', '2021', '2022-01', '2023', '2020'],
+            'IndexYearMonthGO': ['2020-01', '2020-01-15', '2020-02', '2020-03-01', '2020-03', '2020-04-30', '2021-01'],
+            'IndexDateGO': ['2020-01-01', '2020-01-02', '2020-02-01', '2020-03-01', '2021-01-01', '2020-01-03']}
+    for _ in range(ctx.n(60, 600)):
+        cls_name = rng.choice(sorted(TYPED))
+        vals = pool[cls_name]
+        ops = []
+        for _ in range(rng.randint(1, 4)):
+            if rng.random() < 0.5:
+                ops.append(('append', rng.choice(vals)))
+            else:
+                ops.append(('extend', rng.sample(vals, rng.randint(0, 3))))
+        hist.append((cls_name, [vals[0]], ops))
+    for cls_name, labels, ops in hist:
+        try:
+            desc, problem = typed_history(cls_name, labels, ops)
+        except Exception as e:  # noqa
+            yield _escaped('api:typed-IndexGO', {'container': cls_name, 'ops': _j([list(o) for o in ops])}, e, {'container': cls_name})
+            continue
+        tags = {'container': cls_name}
+        f = _typed_class(cls_name, labels, ops)
+        if f:
+            tags['finding'] = f
+        ctx.count('typed:' + cls_name)
+        yield Case('api:typed-IndexGO', desc, py_fail=problem, tags=tags,
+                   nontrivial=any(st['raised'] is None for st in desc['steps']))
+
 
 
 # ----------------------------------------------------------------------------- generate(repo): decision tables
@@ -2311,5 +2536,7 @@ def cases(ctx):
     yield from index_cases(ctx)
     yield from frame_cases(ctx)
     yield from hier_cases(ctx)
+    yield from hier_frame_cases(ctx)
+    yield from typed_cases(ctx)
     yield from world_cases(ctx)
     yield from sharing_cases(ctx)
